@@ -78,6 +78,7 @@ impl AtomicU8 {
     /// LOCKED_STARVATION, so when its own LOCKED -> LOCKED_STARVATION exchange fails the value it sees is final.
     #[verifier::external_body]
     pub fn compare_exchange(&self, current: u8, new: u8, success: Ordering, failure: Ordering) -> (r: Result<u8, u8>)
+        requires /*@tag:O-publish-release C04 C17*/ new < 2 ==> is_release(success),
         ensures
             r matches Err(v) ==> self.observed(v) && v != current && (is_acquire(failure) ==> acq_synced())
                 && (current == 2 && new == 3 ==> v < 2),
@@ -85,6 +86,12 @@ impl AtomicU8 {
     { unimplemented!() }
     /// this thread has stored `v` with ordering `o`
     pub uninterp spec fn stored(&self, v: u8, o: Ordering) -> bool;
+    /// a store to the signal state: publishing a final state (UNLOCKED / TERMINATED) must be a release
+    #[verifier::external_body]
+    pub fn store(&self, v: u8, o: Ordering)
+        requires /*@tag:O-publish-release C04 C17*/ v < 2 ==> is_release(o),
+        ensures self.stored(v, o),
+    { unimplemented!() }
 }
 #[verifier::external_body]
 pub struct AtomicU32 { p: u8 }
@@ -143,12 +150,33 @@ impl<X> UnsafeCell<X> {
     #[verifier::external_body]
     pub fn new(x: X) -> Self { unimplemented!() }
     /// stand-in for `UnsafeCell::get` (which returns a raw pointer): access to the cell's content
+    pub uninterp spec fn view(&self) -> X;
     #[verifier::external_body]
-    pub fn get(&self) -> &mut X { unimplemented!() }
+    pub fn get(&self) -> (r: &mut X) ensures *r == self.view() { unimplemented!() }
 }
+/// R2b (assumed, signal protocol), peer side: when the peer's LOCKED -> final exchange fails the waiter is in
+/// LOCKED_STARVATION, i.e. it has stored its thread handle into the waker cell before (release/acquire pair of
+/// the two compare_exchanges).  Invoked by a kweave hint exactly at the `.unwrap()` of that handle in `wake`.
+#[verifier::external_body]
+pub proof fn axiom_starvation_publishes_handle(cell: Option<std::thread::Thread>)
+    ensures cell is Some,
+{}
+pub assume_specification [<std::thread::Thread as core::clone::Clone>::clone] (_0: &std::thread::Thread) -> std::thread::Thread;
+pub assume_specification [std::thread::Thread::unpark] (_0: &std::thread::Thread);
+pub assume_specification [core::task::Waker::wake] (_0: core::task::Waker);
 /// T10: std::thread::current / park (trusted: return, touch nothing the contracts speak about)
 pub assume_specification [std::thread::current] () -> std::thread::Thread;
 pub assume_specification [std::thread::park] ();
+impl<T> KanalPtr<T> {
+    /// the payload behind / inside this pointer has been written (send) or taken (recv) by the peer
+    pub uninterp spec fn moved(&self) -> bool;
+    #[verifier::external_body]
+    pub unsafe fn write(&self, d: T) ensures self.moved() { unimplemented!() }
+    #[verifier::external_body]
+    pub unsafe fn read(&self) -> (r: T) ensures self.moved() { unimplemented!() }
+    #[verifier::external_body]
+    pub unsafe fn copy(&self, d: *const T) ensures self.moved() { unimplemented!() }
+}
 impl<X> From<X> for UnsafeCell<X> {
     #[verifier::external_body]
     fn from(x: X) -> Self { unimplemented!() }
